@@ -205,6 +205,23 @@ def r4(ctx, F, rule, sfx):
     run = routes.cell_run(r)
     res = run['result']
     e = routes.one_in(run, 'ConvexCell::build')
+    # one record per generator whatever the mask: the cell vector handed to the finalisation is, on every path, the collection of the per-cell
+    # mapping over all slots (an early `return Vec::new()` when nothing is selected leaves unselected cells without their zero record)
+    fin = [x for x in r.all_events if x.callee and strip_generics(x.callee).endswith('Voronoi::finalize')]
+    if len(fin) == 1:
+        cells_v = I.get_field(fin[0].fargs[0], 'voronoi_cells')
+        badleaf = []
+        n_leaf = 0
+        for conds, leaf in cases(cells_v):
+            n_leaf += 1
+            ch, src = stream_chain(I.frozen(leaf))
+            names = [n for n, _ in ch]
+            if not (names[:1] == ['collect'] and 'map' in names and repr(src).replace(' ', '') in ('from_elem(array{},len(generators))', 'generators')):
+                badleaf.append('%s when %s' % (repr(I.frozen(leaf))[:60], ' & '.join(repr(c)[:70] for c in conds) or 'always'))
+        ctx.check(rule, 'direct:one-record-per-generator-on-every-path' + sfx, not badleaf and n_leaf >= 1, badleaf or '%d path(s), each the per-cell mapping collected over all slots' % n_leaf,
+                  'cells == collect(map(all slots, build-or-zero)) on every path', where(fin[0].body, fin[0].line), key_extra='cells-vector')
+    else:
+        raise AnalysisIncomplete('finalisation calls on the direct route: %d' % len(fin))
 
     # the value on the "not built" rows
     def classify(leaf):
